@@ -84,6 +84,20 @@ package logdb
 //@ ensures index < old(lr.markerIndex) ==> result == raft.ErrCompacted
 //@ ensures index > old(lr.last()) ==> result == raft.ErrUnavailable
 
+// C19: installing a snapshot replaces the reader's whole range: afterwards the reader holds nothing but
+// the marker at the snapshot's index and term -- no entry of the old range survives, wherever the
+// snapshot index falls relative to it (the old suffix may be a divergent, uncommitted one)
+//@ func (lr *LogReader) setSnapshot [C19 C08]
+//@ trusted reference counting of the snapshot record (Load / Unref) and the "newer than the current one" test
+//@ modifies lr.snapshot
+//@ ensures result == nil ==> lr.snapshot.Index == snapshot.Index && lr.snapshot.Term == snapshot.Term && snapshot.Index > old(lr.snapshot.Index)
+//@ ensures result != nil ==> lr.snapshot.Index == old(lr.snapshot.Index)
+//@ func (lr *LogReader) ApplySnapshot [C19 C08 C09]
+//@ requires lr.valid() && snapshot.Index < MaxUint64
+//@ modifies held(lr.Mutex), lr.snapshot, lr.length, lr.markerIndex, lr.markerTerm
+//@ ensures result == nil ==> lr.markerIndex == snapshot.Index && lr.markerTerm == snapshot.Term && lr.length == 1 && lr.valid() && lr.first() == snapshot.Index + 1 && lr.last() == snapshot.Index
+//@ ensures result != nil ==> lr.markerIndex == old(lr.markerIndex) && lr.length == old(lr.length) && lr.markerTerm == old(lr.markerTerm)
+
 // ---------------------------------------------------------------- hard-state cache of the sharded store (C04 C09)
 // saveState skips the write only if term, vote AND commit all equal the last persisted state
 //@ func (r *cache) setState [C04 C09]
